@@ -42,7 +42,7 @@ impl Axecutor {
         let rsp = self.reg_read_64(Register::RSP.into())?;
 
         self.mem_write_16(rsp, value)?;
-        self.reg_write_64(Register::RSP.into(), rsp - 2)?;
+        self.reg_write_64(Register::RSP.into(), rsp.wrapping_sub(2))?;
 
         Ok(())
     }
@@ -68,7 +68,7 @@ impl Axecutor {
         let rsp = self.reg_read_64(Register::RSP.into())?;
 
         self.mem_write_64(rsp, value)?;
-        self.reg_write_64(Register::RSP.into(), rsp - 8)?;
+        self.reg_write_64(Register::RSP.into(), rsp.wrapping_sub(8))?;
 
         Ok(())
     }
@@ -83,7 +83,7 @@ impl Axecutor {
         let rsp = self.reg_read_64(Register::RSP.into())?;
 
         self.mem_write_16(rsp, value)?;
-        self.reg_write_64(Register::RSP.into(), rsp - 2)?;
+        self.reg_write_64(Register::RSP.into(), rsp.wrapping_sub(2))?;
 
         Ok(())
     }
@@ -103,7 +103,7 @@ impl Axecutor {
         let rsp = self.reg_read_64(Register::RSP.into())?;
 
         self.mem_write_16(rsp, src)?;
-        self.reg_write_64(Register::RSP.into(), rsp - 2)?;
+        self.reg_write_64(Register::RSP.into(), rsp.wrapping_sub(2))?;
 
         Ok(())
     }
@@ -140,21 +140,21 @@ impl Axecutor {
                 let rsp = self.reg_read_64(Register::RSP.into())?;
 
                 self.mem_write_16(rsp, value as u16 as u64)?;
-                self.reg_write_64(Register::RSP.into(), rsp - 2)?;
+                self.reg_write_64(Register::RSP.into(), rsp.wrapping_sub(2))?;
             }
             OpKind::Immediate8to32 => {
                 let value = i.immediate8to32();
                 let rsp = self.reg_read_64(Register::RSP.into())?;
 
                 self.mem_write_32(rsp, value as u32 as u64)?;
-                self.reg_write_64(Register::RSP.into(), rsp - 4)?;
+                self.reg_write_64(Register::RSP.into(), rsp.wrapping_sub(4))?;
             }
             OpKind::Immediate8to64 => {
                 let value = i.immediate8to64();
                 let rsp = self.reg_read_64(Register::RSP.into())?;
 
                 self.mem_write_64(rsp, value as u64)?;
-                self.reg_write_64(Register::RSP.into(), rsp - 8)?;
+                self.reg_write_64(Register::RSP.into(), rsp.wrapping_sub(8))?;
             }
             _ => fatal_error!("Invalid operand {:?} for PUSH imm8", i.op0_kind()),
         }
@@ -176,7 +176,7 @@ impl Axecutor {
                 let rsp = self.reg_read_64(Register::RSP.into())?;
 
                 self.mem_write_64(rsp, value)?;
-                self.reg_write_64(Register::RSP.into(), rsp - 8)?;
+                self.reg_write_64(Register::RSP.into(), rsp.wrapping_sub(8))?;
             }
             _ => fatal_error!("Invalid operand {:?} for PUSH imm64", i.op0_kind()),
         }
